@@ -17,43 +17,38 @@
 (* CheckC13: outputs under the erased key are equal (packets of the three entry points; sample  *)
 (*           counts and final ranges of the three decoder formats) and every decode event       *)
 (*           satisfies the sample relations of Objects!SampleRelationOK / ProjectionOK.         *)
-(* TolerateF3 (set by the runner only while finding F3 is listed as known): a mismatch is let   *)
-(*           through, counted and printed when it has the shape of F3: an encoder with in-band  *)
-(*           FEC on, one of the two parties having been reset after it had encoded.             *)
-(* TolerateProj16 (likewise, finding F-proj16): the projection decoder's 16-bit relation is     *)
-(*           waived, counted and printed on runs in which the float output comes within 32      *)
-(*           units of the 16-bit limits, i.e. where the 16-bit output has to saturate: the      *)
-(*           16-bit matrix product accumulates in 16 bits and wraps there.                      *)
-(* Every other mismatch leaves the trace unconsumed (REJECTED_AT) whatever these constants say. *)
+(* TolerateProj16 (set by the runner only while finding F14 is listed as known): the projection  *)
+(*           decoder's 16-bit relation is waived, counted and printed on runs in which the      *)
+(*           float output comes within 32 units of the 16-bit limits, i.e. where the 16-bit     *)
+(*           output has to saturate: the 16-bit matrix product accumulates in 16 bits and wraps *)
+(*           there.                                                                             *)
+(* Every other mismatch leaves the trace unconsumed (REJECTED_AT).                               *)
 EXTENDS Objects, Json, IOUtils
-CONSTANTS CheckC12, CheckC13, TolerateF3, TolerateProj16
+CONSTANTS CheckC12, CheckC13, TolerateProj16
 VARIABLES l, obj, roots, trF, trE, nextId
 vars == <<l, obj, roots, trF, trE, nextId>>
 
 Tr == ndJsonDeserialize(IOEnv.TRACE)
 MAXOBJ == 8
 Slots == 0..(MAXOBJ - 1)
-FEC_REQ == 4012
 
 DeadObj == [live |-> FALSE]
 NewObj(kind, cfg) == [live |-> TRUE, kind |-> kind, cfg |-> cfg, settings |-> NoSettings, nf |-> 0, ne |-> 0,
-                      stale |-> FALSE, copied |-> FALSE, wasReset |-> FALSE, sov |-> FALSE]
+                      copied |-> FALSE, wasReset |-> FALSE, sov |-> FALSE]
 
 \* counters (TLC registers; one worker): 1 full-key comparisons, 2 erased-key comparisons, 3 comparisons on copies,
-\* 4 comparisons on reset objects, 5 erased-key comparisons between different formats, 6 tolerated F3 mismatches,
-\* 7 decode events with samples beyond +-1 whose 16-bit relation was evaluated, 8 projection events evaluated,
-\* 9 projection events let through as the known 16-bit wrap
+\* 4 comparisons on reset objects, 5 erased-key comparisons between different formats,
+\* 6 decode events with samples beyond +-1 whose 16-bit relation was evaluated, 7 projection events evaluated,
+\* 8 projection events let through as the known 16-bit wrap
 Holds(b) == b = TRUE      \* evaluate a formula as a value (TLC would otherwise split the action on its disjunctions)
 Bump(i) == TLCSet(i, TLCGet(i) + 1)
 BumpIf(b, i) == IF b THEN Bump(i) ELSE TRUE
 
 Init == /\ l = 1 /\ obj = [o \in Slots |-> DeadObj] /\ roots = << >> /\ trF = << >> /\ trE = << >> /\ nextId = 1
-        /\ \A i \in 1..9 : TLCSet(i, 0)
+        /\ \A i \in 1..8 : TLCSet(i, 0)
 
 Ev == Tr[l]
 More == l <= Len(Tr)
-
-FecOn(s) == FEC_REQ \in DOMAIN s /\ s[FEC_REQ] = 1
 
 \* ---- events that do not touch an object's history ------------------------------------------
 TSkip == /\ More /\ Ev.k \in {"P", "B"} /\ l' = l + 1 /\ UNCHANGED <<obj, roots, trF, trE, nextId>>
@@ -70,8 +65,7 @@ TCopy == /\ More /\ Ev.k = "Y" /\ Ev.o \in Slots /\ Ev.o2 \in Slots /\ obj[Ev.o]
          /\ l' = l + 1 /\ UNCHANGED <<roots, trF, trE, nextId>>
 
 TReset == /\ More /\ Ev.k = "R" /\ Ev.o \in Slots /\ obj[Ev.o].live /\ Ev.rc = 0
-          /\ obj' = [obj EXCEPT ![Ev.o] = [@ EXCEPT !.nf = 0, !.ne = 0, !.wasReset = TRUE, !.sov = FALSE,
-                                                    !.stale = @ \/ obj[Ev.o].nf # 0]]
+          /\ obj' = [obj EXCEPT ![Ev.o] = [@ EXCEPT !.nf = 0, !.ne = 0, !.wasReset = TRUE, !.sov = FALSE]]
           /\ l' = l + 1 /\ UNCHANGED <<roots, trF, trE, nextId>>
 
 TDestroy == /\ More /\ Ev.k = "X" /\ Ev.o \in Slots /\ obj[Ev.o].live
@@ -99,20 +93,16 @@ Step(o, c, outF, outE, st2) ==
       id3 == IF sE THEN id2 ELSE id2 + 1
       eqF == sF => trF[kF].out = outF
       eqE == sE => trE[kE].out = outE
-      f3  == /\ st.kind \in EncKinds /\ FecOn(st.settings) /\ sF /\ (st.stale \/ trF[kF].stale)
-      f3E == /\ st.kind \in EncKinds /\ FecOn(st.settings) /\ sE /\ (st.stale \/ trE[kE].stale)
-  IN /\ CheckC12 => Holds(eqF \/ (TolerateF3 /\ f3))
+  IN /\ CheckC12 => Holds(eqF)
      \* a difference between same-format twins is C12's subject; C13 speaks when the full key agrees or is new
-     /\ CheckC13 => Holds(eqE \/ ~eqF \/ (TolerateF3 /\ f3E))
+     /\ CheckC13 => Holds(eqE \/ ~eqF)
      /\ roots' = IF needRoot THEN (rk :> rid) @@ roots ELSE roots
-     /\ trF' = IF sF THEN trF ELSE (kF :> [next |-> nfN, out |-> outF, stale |-> st.stale]) @@ trF
-     /\ trE' = IF sE THEN trE ELSE (kE :> [next |-> neN, out |-> outE, stale |-> st.stale, fmt |-> IF "fmt" \in DOMAIN c THEN c.fmt ELSE "-"]) @@ trE
+     /\ trF' = IF sF THEN trF ELSE (kF :> [next |-> nfN, out |-> outF]) @@ trF
+     /\ trE' = IF sE THEN trE ELSE (kE :> [next |-> neN, out |-> outE, fmt |-> IF "fmt" \in DOMAIN c THEN c.fmt ELSE "-"]) @@ trE
      /\ nextId' = id3
      /\ obj' = [obj EXCEPT ![o] = [st2 EXCEPT !.nf = nfN, !.ne = neN]]
      /\ BumpIf(sF, 1) /\ BumpIf(sE, 2) /\ BumpIf(sF /\ st.copied, 3) /\ BumpIf(sF /\ st.wasReset, 4)
      /\ BumpIf(sE /\ "fmt" \in DOMAIN c /\ trE[kE].fmt # c.fmt, 5)
-     /\ BumpIf((CheckC12 /\ ~eqF) \/ (CheckC13 /\ ~eqE /\ eqF), 6)
-     /\ IF (CheckC12 /\ ~eqF) \/ (CheckC13 /\ ~eqE /\ eqF) THEN PrintT(<<"TOLERATED", l>>) ELSE TRUE
 
 TCtl ==
   /\ More /\ Ev.k = "T" /\ Ev.o \in Slots /\ obj[Ev.o].live
@@ -151,9 +141,9 @@ TDecode ==
                    ELSE SampleRelationOK(e.fmt, e)
      IN /\ CheckC13 => Holds(rel)
         /\ Step(e.o, c, outF, outE, [st EXCEPT !.sov = sov2])
-        /\ BumpIf(CheckC13 /\ st.kind # "P" /\ e.fmt = "i16" /\ e.over > 0, 7)
-        /\ BumpIf(CheckC13 /\ st.kind = "P" /\ e.fmt # "f32" /\ ~sov2, 8)
-        /\ BumpIf(CheckC13 /\ st.kind = "P" /\ ~sov2 /\ ~ProjectionOK(e.fmt, e), 9)
+        /\ BumpIf(CheckC13 /\ st.kind # "P" /\ e.fmt = "i16" /\ e.over > 0, 6)
+        /\ BumpIf(CheckC13 /\ st.kind = "P" /\ e.fmt # "f32" /\ ~sov2, 7)
+        /\ BumpIf(CheckC13 /\ st.kind = "P" /\ ~sov2 /\ ~ProjectionOK(e.fmt, e), 8)
         /\ IF CheckC13 /\ st.kind = "P" /\ ~sov2 /\ ~ProjectionOK(e.fmt, e) THEN PrintT(<<"TOLERATED_PROJ", l>>) ELSE TRUE
   /\ l' = l + 1
 
@@ -162,7 +152,7 @@ Spec == Init /\ [][Next]_vars
 
 Accepted ==
   LET n == TLCGet("stats").diameter IN
-  /\ PrintT(<<"STATS", TLCGet(1), TLCGet(2), TLCGet(3), TLCGet(4), TLCGet(5), TLCGet(6), TLCGet(7), TLCGet(8), TLCGet(9)>>)
+  /\ PrintT(<<"STATS", TLCGet(1), TLCGet(2), TLCGet(3), TLCGet(4), TLCGet(5), TLCGet(6), TLCGet(7), TLCGet(8)>>)
   /\ IF n - 1 = Len(Tr) THEN TRUE
      ELSE PrintT(<<"REJECTED_AT", n, ToString(Tr[n])>>)
 =============================================================================
